@@ -74,7 +74,7 @@ class LayerMapping:
         candidate_parent_modules = []
         while idx_of_module >= 0:
             parent_module_candidate = self._sorted_module_filter_names[idx_of_module]
-            if module_name.startswith(parent_module_candidate):
+            if module_name.startswith(f"{parent_module_candidate}."):
                 candidate_parent_modules.append(
                     ModuleNameFilter(name=parent_module_candidate)
                 )
